@@ -220,6 +220,15 @@ func c16Oracle(c c16Case) error {
 	if c.Path != "" {
 		base = append(base, c.Path)
 	}
+	if c.Path == "-rel-path" {
+		// "-rel-path ... implies -rebase": an explicit -rebase=false next to it changes nothing
+		switch digestBytes(x) % 3 {
+		case 1:
+			base = []string{"-rebase=false", "-rel-path"}
+		case 2:
+			base = []string{"-rel-path", "-rebase=false"}
+		}
+	}
 	if c.Aggressive {
 		base = append(base, "-aggressive")
 	}
